@@ -68,6 +68,7 @@ type World struct {
 	// materialised
 	OtherCA    *Cert
 	Unrelated  *Key
+	NameTwins  map[int]*Cert
 	Siblings   map[int]*Cert
 	Delegates  map[int]*Cert
 	BadDeleg   map[int]*Cert
@@ -92,6 +93,7 @@ type RevScenario struct {
 	CancelXPreferCRL bool            // ... preferring base-CRL downloads (the base/delta boundary)
 	HealCert         int             // C06.R5 twin: certificate whose sources are made honest in the second run
 	CacheLatency     time.Duration   // fake duration of every cache operation
+	WrapMiss         bool            // the cache reports misses as a wrapped ErrCacheMiss
 	PanicInSet       bool            // PanicAt == "cache": Set panics instead of Get
 	Sequential       bool            // soak: the worlds are successive validations of the same chain
 	Gaps             []time.Duration // soak: fake time that passes before each validation
@@ -154,6 +156,8 @@ func (p *RevProfile) genFault(t *Tape, sc *RevScenario, kind string) Fault {
 		f.Param = []int{404, 500, 503, 204, 301, 403, 206, 304, 201, 429}[t.Choose(10)]
 	case FRedirect:
 		f.Param = []int{302, 301, 303, 307, 308}[t.Weighted(40, 15, 15, 15, 15)]
+	case FConnErr:
+		f.Param = t.Weighted(40, 12, 10, 12, 8, 10, 8) // plain / typed DNS not-found / temporary DNS / refused / unexpected EOF / reset / EOF
 	case FTruncate:
 		f.Param = []int{500, 0, 999, 10, 900}[t.Choose(5)]
 	case FBodyStall:
@@ -184,6 +188,10 @@ func (p *RevProfile) genOCSPContent(t *Tape, sc *RevScenario, truth int, deviate
 	if c.Status == StRevoked {
 		c.InvKind = t.Weighted(60, 10, 10, 15, 5)
 		c.Reason = []int{1, 0, 2, 3, 4, 5, 6, 8, 9, 10}[t.Choose(10)]
+	} else if t.Bool(8) {
+		// a meaningless invalidityDate on a Good / Unknown answer
+		c.InvOnAny = true
+		c.InvKind = 1 + t.Choose(3)
 	}
 	if !deviate {
 		return c
@@ -335,6 +343,7 @@ func GenRevScenario(t *Tape, p *RevProfile) *RevScenario {
 	sc.Discard = t.Bool(50)
 	sc.CacheLatency = []time.Duration{0, 3 * time.Millisecond, 40 * time.Millisecond}[t.Weighted(50, 30, 20)]
 	sc.PanicInSet = t.Bool(50)
+	sc.WrapMiss = t.Bool(35)
 	sc.OCSPTimeout = []time.Duration{2 * time.Second, 0, 500 * time.Millisecond, 5 * time.Second}[t.Weighted(50, 15, 15, 20)]
 	sc.CRLTimeout = []time.Duration{5 * time.Second, 0, 500 * time.Millisecond, 2 * time.Second}[t.Weighted(50, 15, 15, 20)]
 	nWorlds := 1
@@ -588,7 +597,8 @@ func (p *RevProfile) genWorld(t *Tape, sc *RevScenario, id int) *World {
 				s.FrShape = FrURIs
 				nd := 1 + t.Weighted(70, 20, 10)
 				for j := 0; j < nd; j++ {
-					s.DeltaURL = append(s.DeltaURL, fmt.Sprintf("http://d%d-%d-%d.w%d.sim/delta.crl", pos, i, j, id))
+					// advertised order deliberately differs from lexicographic order
+					s.DeltaURL = append(s.DeltaURL, fmt.Sprintf("http://d%d-%d-%d.w%d.sim/delta.crl", pos, i, 2-j, id))
 					f := Fault{}
 					if faulty && sc.Config != 2 && t.Bool(p.PSrcFault) {
 						f = p.genFault(t, sc, "delta")
